@@ -375,7 +375,7 @@ def raptor_race(ctx, res, rng, idx):
             fw, cached = counts()
             snap = (sorted(fw.items()), sorted(cached),
                     pair.child._queue_sched.empty())
-            if snap == last and snap[2]:
+            if snap == last and snap[2] and _loop_idle(pair.thread):
                 stable += 1
                 if stable >= 8:
                     break
@@ -424,6 +424,19 @@ def raptor_race(ctx, res, rng, idx):
 #     loop re-tests the wait pool (a running task just ended): every task ends
 #     up in exactly one place - placed once, or canceled once
 #
+def _loop_idle(thread):
+    """the scheduling loop thread waits for input (its innermost frame is a
+    blocking queue / condition wait): decided from the thread's stack, so a
+    loop which was merely descheduled with a bulk in its hands is not idle"""
+    import sys
+    fr = sys._current_frames().get(getattr(thread, 'ident', None))
+    if fr is None:
+        return True
+    fn = fr.f_code.co_filename
+    return fr.f_code.co_name in ('wait', 'get', '_wait', 'acquire') and \
+           (fn.endswith('threading.py') or fn.endswith('queue.py'))
+
+
 def waitpool_cancel_race(ctx, res, rng, idx):
     import time
     import threading as mt
